@@ -650,6 +650,8 @@ class Symex:
         """Python-level sequence of the elements of a value."""
         if isinstance(it, dict):
             return list(it.keys())
+        if isinstance(it, _CountSeq):
+            return it
         if isinstance(it, (list, tuple, range, str, set, frozenset)):
             return it if isinstance(it, list) else list(it)
         if isinstance(it, T):
@@ -1224,6 +1226,19 @@ class Symex:
                 return v
         return v
 
+    def subscript_value(self, obj, k, node):
+        """``obj[k]`` for already evaluated values."""
+        if isinstance(obj, Obj):
+            obj = obj.term
+        if isinstance(obj, T) or isinstance(k, T):
+            return T("item", _freeze(obj), _freeze(k))
+        try:
+            return obj[k]
+        except (KeyError, IndexError):
+            raise Raised("KeyError" if isinstance(obj, dict) else "IndexError", None, node)
+        except TypeError:
+            self.unsupported(node, f"subscript of {type(obj).__name__}")
+
     def subscript(self, n):
         obj = self.ev(n.value)
         if isinstance(n.slice, ast.Slice):
@@ -1768,6 +1783,57 @@ class Symex:
             if len(args) > 1:
                 return args[1]
             raise Raised("StopIteration", None, node)
+        if short in ("zip_longest", "islice", "pairwise") and not any(isinstance(a, (T, Obj)) for a in args):
+            import itertools
+            seqs = [self.iterate(a, node) if not isinstance(a, (int, type(None))) else a for a in args]
+            try:
+                return [tuple(x) if isinstance(x, tuple) else x for x in getattr(itertools, short)(*seqs, **kw)]
+            except (TypeError, ValueError):
+                self.unsupported(node, f"itertools.{short}")
+        if short == "repeat" and name in ("repeat", "itertools.repeat") and len(args) == 2 and isinstance(args[1], int):
+            return [args[0]] * args[1]
+        if short == "starmap" and len(args) == 2 and not isinstance(args[1], T):
+            return [self.call_value(args[0], list(self.iterate(x, node)), {}, node) for x in self.iterate(args[1], node)]
+        if short == "accumulate" and name in ("accumulate", "itertools.accumulate") and args and not isinstance(args[0], T):
+            f = args[1] if len(args) > 1 else kw.get("func")
+            out = []
+            for x in self.iterate(args[0], node):
+                out.append(x if not out else (self.call_value(f, [out[-1], x], {}, node) if f is not None
+                                               else self.binop(ast.Add(), out[-1], x, node)))
+            return out
+        if short == "partial" and name in ("partial", "functools.partial") and args:
+            f0, a0, k0 = args[0], list(args[1:]), dict(kw)
+            return lambda sx, a, k: sx.call_value(f0, a0 + list(a), {**k0, **k}, node)
+        if short == "itemgetter" and name in ("itemgetter", "operator.itemgetter") and args:
+            keys = list(args)
+
+            def _getter(sx, a, k):
+                vals = [sx.subscript_value(a[0], key, node) for key in keys]
+                return vals[0] if len(vals) == 1 else tuple(vals)
+            return _getter
+        if short == "attrgetter" and name in ("attrgetter", "operator.attrgetter") and args and all(isinstance(x, str) for x in args):
+            names = list(args)
+
+            def _agetter(sx, a, k):
+                vals = []
+                for nm in names:
+                    v = a[0]
+                    for part in nm.split("."):
+                        v = sx.getattr(v, part, node)
+                    vals.append(v)
+                return vals[0] if len(vals) == 1 else tuple(vals)
+            return _agetter
+        if short == "OrderedDict" and len(args) <= 1 and not any(isinstance(a, T) for a in args):
+            return dict(args[0]) if args and isinstance(args[0], dict) else dict(self.iterate(args[0], node)) if args else {}
+        if short == "count" and name in ("count", "itertools.count") and len(args) <= 2 and all(is_num(a) for a in args) and not kw:
+            return _CountSeq(*args)
+        if short == "deque" and name in ("deque", "collections.deque") and len(args) <= 1 and not isinstance(args[0] if args else [], T):
+            return _Deque(self.iterate(args[0], node) if args else [])
+        if name == "next" and args and isinstance(args[0], _CountSeq):
+            c = args[0]
+            v = c[c.pos]
+            c.pos += 1
+            return v
         if name == "Counter" and len(args) <= 1 and not any(_has_sym(a) for a in args):
             c = _Counter()
             if args and isinstance(args[0], dict):
@@ -1921,6 +1987,13 @@ class Symex:
                     return getattr(o, attr)(*a, **kw)
                 except KeyError:
                     raise Raised("KeyError", None, node)
+        if isinstance(o, _Deque) and attr in ("popleft", "appendleft", "extendleft", "rotate"):
+            try:
+                if attr == "extendleft":
+                    return o.extendleft(self.iterate(a[0], node))
+                return getattr(o, attr)(*a)
+            except IndexError:
+                raise Raised("IndexError", None, node)
         if isinstance(o, list):
             if attr == "append":
                 o.append(a[0])
@@ -2089,6 +2162,45 @@ class _DefaultDict(dict):
         for k, v in self.items():
             dict.__setitem__(c, k, copy.deepcopy(v, memo))
         return c
+
+
+class _CountSeq(list):
+    """itertools.count(start, step): an unbounded arithmetic sequence read lazily by for-loops and next()."""
+
+    def __init__(self, start=0, step=1):
+        super().__init__()
+        self.start, self.step, self.pos = start, step, 0
+
+    def __len__(self):
+        return 10 ** 9
+
+    def __getitem__(self, k):
+        return self.start + k * self.step
+
+    def __iter__(self):
+        raise TypeError("unbounded sequence")
+
+    def __bool__(self):
+        return True
+
+
+class _Deque(list):
+    """collections.deque on top of a list."""
+
+    def popleft(self):
+        return self.pop(0)
+
+    def appendleft(self, x):
+        self.insert(0, x)
+
+    def extendleft(self, xs):
+        for x in xs:
+            self.insert(0, x)
+
+    def rotate(self, n=1):
+        if self:
+            n %= len(self)
+            self[:] = self[-n:] + self[:-n]
 
 
 class _Counter(dict):
